@@ -802,7 +802,8 @@ func (l *Loader) mergeResult(fetchItem *FetchItem, res *result, items []*astjson
 			l.skipValueCompletion = true
 		}
 
-		// no data
+		// no data: nothing the dependent fetches could be built from
+		l.recordErroredFetchIDLocked(fetchItem)
 		return nil
 	}
 
@@ -1355,6 +1356,9 @@ func (l *Loader) renderErrorsFailedDeps(fetchItem *FetchItem, res *result) error
 }
 
 func (l *Loader) renderErrorsFailedToFetch(fetchItem *FetchItem, res *result, reason string) error {
+	// the fetch delivered nothing: the fetches depending on its fields must be skipped,
+	// exactly as for a transport error (the caller holds the data lock)
+	l.recordErroredFetchIDLocked(fetchItem)
 	l.recordSubgraphError(res, res.err, NewSubgraphError(res.ds, fetchItem.ResponsePath, reason, res.statusCode))
 	errorObject, err := astjson.ParseWithArena(l.jsonArena, l.renderSubgraphBaseError(res.ds, fetchItem.ResponsePath, reason))
 	if err != nil {
@@ -1375,6 +1379,7 @@ func (l *Loader) renderErrorsStatusFallback(fetchItem *FetchItem, res *result, s
 		reason += ": " + statusText
 	}
 
+	l.recordErroredFetchIDLocked(fetchItem)
 	l.recordSubgraphError(res, res.err, NewSubgraphError(res.ds, fetchItem.ResponsePath, reason, res.statusCode))
 
 	errorObject, err := astjson.ParseWithArena(l.jsonArena, fmt.Sprintf(`{"message":"%s"}`, reason))
